@@ -80,16 +80,21 @@ class Prop(PropBase):
         rate = float(case["rate"][0]) * u.Unit(case["rate"][1])
         shape = sigs.sample_shape(case["cls"], 2)
         g = np.random.default_rng(case["seed"])
+        layout = None
         if sigs.is_complex(case["cls"]):
             data = (g.standard_normal((case["L"],) + shape) + 1j * g.standard_normal((case["L"],) + shape))
         else:
             data = g.standard_normal((case["L"],) + shape)
             if case["seed"] % 5 == 1:
                 data = data * [1e-9, 1e-12][case["seed"] % 2]     # weak signals: interpolation is linear
+            if case["cls"] in ("Signal", "RadioSignal") and case["seed"] % 4 == 2:
+                # classes without a dtype requirement hold complex samples as well (of either precision)
+                data = (data + 1j * g.standard_normal(data.shape)).astype([np.complex128, np.complex64][(case["seed"] // 4) % 2])
+                layout = ["swapped", "c", "swapped", "fortran"][(case["seed"] // 8) % 4]        # also dumps in the other byte order
             if case["cls"] in ("Signal", "RadioSignal") and case["seed"] % 4 == 0:
                 # classes without a dtype requirement also hold integer samples (raw counts); interpolated values are not integers
                 data = np.round(data * 20).astype([np.int16, np.int64, np.int8, np.uint8][(case["seed"] // 4) % 4])
-        return sigs.make(pb, case["cls"], case["L"], rate, case["t0"], nchan=2, data=data)
+        return sigs.make(pb, case["cls"], case["L"], rate, case["t0"], nchan=2, data=data, layout=layout)
 
     def _targ(self, case, z):
         """the argument passed to snippet, and the double (as exact rational) the code derives from it"""
